@@ -113,6 +113,19 @@ func (p *c06Peer) opsCopy() []*base.VerifOp {
 //	retried replicated write: a replicated write of this document lost its compare-and-swap and its update callback
 //	(which runs conflict detection and resolution) ran again.
 func (e *c06Env) classify(doc string, peers ...*c06Peer) string {
+	// the same edit made on both peers (one revision-tree id, two current versions): named when a peer's current revision is
+	// that revision or its direct child (the resolution's tombstone)
+	e.traceMu.Lock()
+	tw := e.twinRev[doc]
+	e.traceMu.Unlock()
+	if tw != "" && e.hlv {
+		for _, p := range peers {
+			m := p.readMeta(doc)
+			if m.Exists && (m.Rev == tw || m.Parents[m.Rev] == tw) {
+				return e.sigBase() + "|peers-differ|history=the-same-edit(same-parent-and-body:one-revision-id,two-current-versions)-was-made-on-both-peers"
+			}
+		}
+	}
 	retried := ""
 	for _, p := range peers {
 		e.harvest(p)
@@ -153,6 +166,7 @@ type c06Env struct {
 	acked []c06Ack
 	// bodies written per document (by marker) on each peer
 	written map[string]map[string]bool // docID -> marker -> true
+	twinRev map[string]string          // docID -> revision id of the last edit made identically on both peers (both halves acknowledged)
 	writeN  int
 	// replication bookkeeping
 	created map[string]bool
@@ -209,6 +223,7 @@ func c06IsDocWrite(op *base.VerifOp) bool {
 
 func c06Setup(t *testing.T, run *vlib.Run, c *c06Case) *c06Env {
 	e := &c06Env{t: t, run: run, c: c, hlv: c.Proto == "V4", harness: base.VerifGoroutineID(),
+		twinRev: map[string]string{},
 		written: map[string]map[string]bool{}, created: map[string]bool{}, running: map[string]bool{}, cont: map[string]bool{},
 		dirOf: map[string]db.ActiveReplicatorDirection{}}
 	for i := 0; i < c06NumDocs; i++ {
@@ -632,6 +647,15 @@ func (e *c06Env) twinWrite(doc int, first string) {
 	if first == "passive" {
 		order = []*c06Peer{e.P, e.A}
 	}
+	var halves []string
+	defer func() {
+		if len(halves) == 2 && halves[0] == halves[1] {
+			e.traceMu.Lock()
+			e.twinRev[id] = halves[0]
+			e.traceMu.Unlock()
+			e.run.Count("twin_edits_acknowledged_on_both_peers", 1)
+		}
+	}()
 	for _, peer := range order {
 		resp := peer.rt.SendAdminRequest("PUT", "/{{.keyspace}}/"+id+"?rev="+a.Rev, fmt.Sprintf(`{"marker":%q,"n":%d}`, marker, e.writeN))
 		if resp.Code != http.StatusCreated && resp.Code != http.StatusOK {
@@ -648,6 +672,7 @@ func (e *c06Env) twinWrite(doc int, first string) {
 		e.acked = append(e.acked, c06Ack{Peer: peer.name, Doc: id, Kind: "edit", Rev: wr.Rev, Parent: a.Rev, Marker: marker})
 		e.written[id][marker] = true
 		e.traceMu.Unlock()
+		halves = append(halves, wr.Rev)
 		e.tr("%s: twin edit %s (parent %q) -> %s", peer.name, id, a.Rev, wr.Rev)
 		e.run.Count("local_writes", 1)
 		e.run.Count("local_edit", 1)
